@@ -53,7 +53,7 @@ CompatClause(e) ==           \* passes = a.compatible(b) returned without an exc
     ELSE "compat.refuses-supported"
 EquivClause(e) ==            \* d1 / d2 / d2x / d3: datainfo of the type, of the rebuilt type (also with an unknown key), of the copy
     IF e.d1.j # "obj" THEN "describe.raises"
-    ELSE IF Rebuild(e.d1) # e.dt THEN "describe.denotes"
+    ELSE IF Rebuild(e.d1) # Canon(e.dt) THEN "describe.denotes"      \* (TextType is described as string, LimitsType as tuple)
     ELSE IF e.d2 # e.d1 THEN "rebuild.datainfo"
     ELSE IF e.d2x # e.d1 THEN "rebuild.ignore-unknown"
     ELSE IF e.d3 # e.d1 THEN "copy.datainfo"
